@@ -196,17 +196,16 @@ void SessionManager::start(std::uint16_t port) {
 }
 
 void SessionManager::stop() {
-    if (!running_) {
-        return;
+    if (running_.exchange(false)) {
+        close_socket(listen_socket_);
+        if (accept_thread_.joinable()) {
+            accept_thread_.join();
+        }
+        listen_socket_ = INVALID_SOCKET_HANDLE;
     }
 
-    running_ = false;
-    close_socket(listen_socket_);
-    if (accept_thread_.joinable()) {
-        accept_thread_.join();
-    }
-    listen_socket_ = INVALID_SOCKET_HANDLE;
-
+    // Sessions exist without a listener too (outbound connections), and their reader threads
+    // call into the owner's handlers: none of them may outlive this call.
     teardown_sessions();
 }
 
@@ -334,8 +333,7 @@ bool SessionManager::connect(const PeerId& peer_id,
         return true;
     }
 
-    session->reader = std::thread(&SessionManager::receive_loop, this, peer_id, session);
-    session->reader.detach();
+    start_reader(peer_id, session);
     return true;
 }
 
@@ -456,8 +454,7 @@ bool SessionManager::adopt_outbound_socket(const PeerId& peer_id, SocketHandle s
         return true;
     }
 
-    session->reader = std::thread(&SessionManager::receive_loop, this, peer_id, session);
-    session->reader.detach();
+    start_reader(peer_id, session);
     return true;
 }
 
@@ -553,8 +550,7 @@ bool SessionManager::handle_pending_handshake(const PeerId& peer_id, SocketHandl
         keys_[peer_key_string(peer_id)] = acceptance->session_key;
     }
 
-    session->reader = std::thread(&SessionManager::receive_loop, this, peer_id, session);
-    session->reader.detach();
+    start_reader(peer_id, session);
     return true;
 }
 
@@ -730,7 +726,27 @@ bool SessionManager::receive_transport_handshake_ack(SocketHandle socket, const 
     return true;
 }
 
+void SessionManager::start_reader(const PeerId& peer_id, const std::shared_ptr<Session>& session) {
+    {
+        std::scoped_lock lock(readers_mutex_);
+        ++active_readers_;
+    }
+    session->reader = std::thread(&SessionManager::receive_loop, this, peer_id, session);
+    session->reader.detach();
+}
+
 void SessionManager::receive_loop(const PeerId& peer_id, std::shared_ptr<Session> session) {
+    // Declared first, so it runs last: once the count drops, stop() may return and the manager
+    // (and the node whose handler this thread has been running) may be destroyed.
+    struct ReaderDone {
+        SessionManager& manager;
+        ~ReaderDone() {
+            std::scoped_lock lock(manager.readers_mutex_);
+            --manager.active_readers_;
+            manager.readers_cv_.notify_all();
+        }
+    } reader_done{*this};
+
     session->alive.store(true);
     const auto thread_id = std::this_thread::get_id();
     std::ostringstream thread_stream;
@@ -956,6 +972,14 @@ void SessionManager::teardown_sessions() {
                       << " origin=" << session->debug_origin << ')'
                       << std::endl;
         }
+    }
+
+    // The readers are detached and a session that was replaced is no longer in the table, but its
+    // reader may still be inside a handler. Every socket is closed by now, so each of them comes
+    // back; wait for all of them rather than for two seconds.
+    {
+        std::unique_lock lock(readers_mutex_);
+        readers_cv_.wait(lock, [this] { return active_readers_ == 0; });
     }
 
     {
